@@ -209,6 +209,33 @@ async def scenario(case: dict[str, Any], out: dict[str, Any]) -> None:
             bad("channel-crosstalk" if foreign else "channel-lost",
                 f"subscriber of channel {k} received {len(got)} event(s); from other channels: {foreign}; own event delivered: "
                 f"{any(g is sent.get(k) for g in got)}")
+    # ---- the same single stream over all channels, this time as the only subscriber there is (no channel has a listener of
+    # its own at the moment it subscribes; the same signal is even listed twice): still one event per dispatch and channel
+    from asphalt.core import stream_events as _stream_events
+
+    solo: list[Any] = []
+    try:
+        async with _stream_events(list(bound.values()) + list(bound.values())[:1], max_queue_size=1000) as st2:
+            sent2 = {}
+            for n, k in enumerate(bound):
+                ev2 = attr_ev[k[1]](100 + n)
+                sent2[k] = ev2
+                bound[k].dispatch(ev2)
+            with anyio.move_on_after(5):
+                while len(solo) < len(sent2) + 1:
+                    solo.append(await st2.__anext__())
+        inc("solo_combined_stream_events", len(solo))
+        first_key = next(iter(bound))
+        want_ids = [id(sent2[k]) for k in bound]
+        got_ids = [id(x) for x in solo]
+        # (a signal listed twice may deliver its event once or twice - the statement does not say; every other event exactly once)
+        dup_ok = [i for i in got_ids if i != id(sent2[first_key])]
+        if [i for i in want_ids if i != id(sent2[first_key])] != dup_ok or id(sent2[first_key]) not in got_ids:
+            missing = [k for k in bound if id(sent2[k]) not in got_ids]
+            bad("channel-lost[combined-stream]", f"a single stream over all {len(bound)} channels, subscribed while no channel had any other listener, received the events "
+                                                 f"of {len(set(got_ids))} channels; missing: {missing} (owner kind {kind})")
+    except Exception as e:
+        bad("channel-subscribe-raised", f"one stream over all channels (as the only subscriber) raised {describe_exc(e)}")
     # ---- an instance of a *subclass* of the declared event class is a right-class event: accepted and delivered
     for k in list(bound)[:2]:
         Sub = type("SubEvent", (attr_ev[k[1]],), {"__slots__": ()})
